@@ -162,8 +162,11 @@ def enclosing_ifs(node, pmap, stop=None):
         if a is stop:
             break
         if isinstance(a, ast.If):
-            br = 'body' if any(child is s or _contains(s, child) for s in a.body) else 'orelse'
-            out.append((a, br))
+            if child is a.test or _contains(a.test, child):
+                pass                      # part of the test itself: evaluated before either branch
+            else:
+                br = 'body' if any(child is s or _contains(s, child) for s in a.body) else 'orelse'
+                out.append((a, br))
         if isinstance(a, (ast.FunctionDef, ast.AsyncFunctionDef, ast.Lambda)):
             break
         child = a
